@@ -1,0 +1,10 @@
+//go:build verif
+
+package rtpsender
+
+import "github.com/pion/rtcp"
+
+// VerifReport generates a sender report immediately (runtime verification hook).
+func (rs *Sender) VerifReport() rtcp.Packet {
+	return rs.report()
+}
